@@ -657,11 +657,19 @@ impl expr::Expr
 							return Err(report.error_span("invalid slice range", span));
 						}
 
+						let left_usize = match left_usize.checked_add(1)
+						{
+							Some(v) => v,
+							None => return Err(report.error_span(
+								"value is out of supported range",
+								span)),
+						};
+
 						Ok(expr::Value::make_integer(
 							x.checked_slice(
 								report,
 								span,
-								left_usize + 1,
+								left_usize,
 								right_usize)?))
 					}
 					None => Err(report.error_span("invalid argument type to slice", span))
